@@ -720,7 +720,7 @@ def build_first(case, judge):
     except Exception as e:
         from leaspy.exceptions import LeaspyInputError
 
-        if stage == "fit" and case["noise"] == "bernoulli" and isinstance(e, LeaspyInputError):
+        if stage in ("fit", "first fit", "second fit") and case["noise"] == "bernoulli" and isinstance(e, LeaspyInputError):
             return None, "fit-refused:bernoulli-initialisation"
         judge.add("build", type(e).__name__, feat, f"{stage}: {exc_text(e)}")
         return None, f"build-raise:{type(e).__name__}"
